@@ -104,14 +104,14 @@ func boolInt(b bool) int {
 // bd: BurndownAnalysis
 
 type bdChange struct {
-	kind                                         string // ins | del | mod
-	name, to                                     int
-	lines                                        int
-	bin                                          bool
-	flines, tlines                               int
-	fbin, tbin                                   bool
-	oldl, newl                                   int
-	diffs                                        [][2]int // (0 equal | 1 insert | 2 delete, length)
+	kind           string // ins | del | mod
+	name, to       int
+	lines          int
+	bin            bool
+	flines, tlines int
+	fbin, tbin     bool
+	oldl, newl     int
+	diffs          [][2]int // (0 equal | 1 insert | 2 delete, length)
 }
 
 type bdOp struct {
@@ -175,11 +175,35 @@ func parseBdOp(s Sx) bdOp {
 	return o
 }
 
-func fname(i int) string { return fmt.Sprintf("f%d", i) }
+// fname: the name of file number i.  Round 4 (R4-1): the small numbers - the ones every generator uses - are names that
+// differ only in bytes a normalisation would collapse (case, white space, invalid UTF-8 next to a REAL U+FFFD, BOM, CR, NUL,
+// directory case) or that share prefixes / decimal widths; the mapping stays a bijection, the model sees numbers only.
+var nastyFiles = []string{"", "f1", "F1", "f1 ", "f\xff", "f\xef\xbf\xbd", "\xef\xbb\xbff1", "f\t1", "f1\r\n", "d/f1", "D/f1", "f\x001",
+	"f\xc3", "f\u00a01", "f1\u2028", " f1", "f\u30001", "f10", "f11", "f\xc0\xaf1", "f\xed\xa0\x801", "d/F1", "f1\r", "f", "ff1"}
+var nastyFileNo = func() map[string]int {
+	m := map[string]int{}
+	for i, n := range nastyFiles {
+		if _, dup := m[n]; dup {
+			panic("nastyFiles: duplicate " + n)
+		}
+		m[n] = i
+	}
+	return m
+}()
+
+func fname(i int) string {
+	if i > 0 && i < len(nastyFiles) {
+		return nastyFiles[i]
+	}
+	return fmt.Sprintf("f%d", i)
+}
 func unfname(s string) int {
 	var i int
 	if s == "" {
 		return 0
+	}
+	if k, ok := nastyFileNo[s]; ok {
+		return k
 	}
 	fmt.Sscanf(s, "f%d", &i)
 	return i
@@ -1165,7 +1189,30 @@ func parsePlOp(s Sx) plOp {
 	return plOp{kind: "consume", copy: a[0].Int(), commit: a[1].Int(), index: a[2].Int()}
 }
 
+// pathName: the path of file number pid.  Round 4 (R4-1, R4-2, R4-5): the numbers from 10 on are names that differ only in
+// bytes a normalisation would collapse, share prefixes, or sit at the decimal widths 9/10/11, 99/100/101, 999/1000/1001; the
+// mapping stays a bijection (the model sees numbers only).  No name is "d1..", "d2.." (the directories) and none contains NUL.
+var nastyPaths = map[int]string{10: "P1", 11: "p1 ", 12: "p\xff", 13: "p\xef\xbf\xbd", 14: "\xef\xbb\xbfp1", 15: "p\t1", 16: "p1\r", 17: "d1/P3",
+	18: "D1/p3", 19: "p\xc3", 20: "p\u00a01", 21: "p1\u2028", 22: " p1", 23: "p\u30001", 24: "p10", 25: "p11", 26: "p99", 27: "p100", 28: "p101",
+	29: "p999", 30: "p1000", 31: "p1001", 32: "p\xc0\xaf1", 33: "p\xed\xa0\x801", 34: "d2/S/p2", 35: "d2/s/P2", 36: "p", 37: "pp1", 38: "p1\r\n",
+	39: "d2/s/p2 ", 40: "p1.lnk"}
+var nastyPathNo = func() map[string]int {
+	m := map[string]int{}
+	for i, n := range nastyPaths {
+		m[n] = i
+	}
+	for i := 0; i < 10; i++ {
+		if _, dup := m[pathName(i)]; dup || len(m) != len(nastyPaths) {
+			panic("nastyPaths: duplicate")
+		}
+	}
+	return m
+}()
+
 func pathName(pid int) string {
+	if n, ok := nastyPaths[pid]; ok {
+		return n
+	}
 	switch pid % 3 {
 	case 0:
 		return fmt.Sprintf("d1/p%d", pid)
@@ -1176,14 +1223,48 @@ func pathName(pid int) string {
 }
 
 func unpathName(s string) int {
+	if k, ok := nastyPathNo[s]; ok {
+		return k
+	}
 	i := strings.LastIndex(s, "p")
 	var pid int
 	fmt.Sscanf(s[i:], "p%d", &pid)
 	return pid
 }
 
+// blobData: the content of blob number bid.  Round 4 (R4-1, R4-4): some blobs are empty, consist of a BOM / of white space only,
+// are invalid UTF-8 next to a real U+FFFD, carry CR / CRLF / NUL; every content belongs to one number only.
+var nastyBlobs = map[int]string{3: "", 6: "\xef\xbb\xbf", 9: " \n\t \n", 12: "\xff\xfe\n", 15: "a\r\nb\rc\n", 18: "\x00\x01\x00", 21: "\xef\xbf\xbd\n",
+	24: "\xff\n", 27: "\xef\xbb\xbfblob 27\n", 30: "\xc3", 33: "BLOB 34\n", 36: "\u00a0\u2028\u3000", 39: "blob 39", 42: "blob 39\n"}
+
 func blobData(bid int) []byte {
+	if d, ok := nastyBlobs[bid]; ok {
+		return []byte(d)
+	}
 	return []byte(fmt.Sprintf("blob %d\n%s", bid, strings.Repeat("line\n", bid%5)))
+}
+
+// blobMode: the entry kind is a function of the blob number (R4-4): a new version of a file may turn it into an executable or
+// a symbolic link and back (the model's path-wise diff sees a modification in exactly those cases: the blob changed).
+func blobMode(bid int) filemode.FileMode {
+	switch bid % 7 {
+	case 2:
+		return filemode.Executable
+	case 4:
+		return filemode.Symlink
+	}
+	return filemode.Regular
+}
+
+// commitWhen: author and committer time of a commit differ (the items read the committer's) and carry non-zero zone offsets,
+// as a function of the commit number (R4-3).
+var plZones = []int{0, 19800, -28800, 50400, -43200, 20700, 3600}
+
+func commitWhen(id int, t int64) (author, committer time.Time) {
+	skew := []int64{0, 3 * 86400, -400 * 86400, 3600, -1}[id%5]
+	author = time.Unix(t+skew, 0).In(time.FixedZone("", plZones[id%len(plZones)]))
+	committer = time.Unix(t, 0).In(time.FixedZone("", plZones[(id/2+3)%len(plZones)]))
+	return
 }
 
 const plBase = int64(1262304000) // 2010-01-01 00:00:00 UTC
@@ -1208,12 +1289,13 @@ type plRunner struct {
 	obs      []Sx
 }
 
-func newPlRunner(commits []plCommit, sizeHours int) *plRunner {
+func newPlRunner(commits []plCommit, sizeSec int) *plRunner {
 	r := &plRunner{commits: commits, byID: map[int]int{}, blobID: map[plumbing.Hash]int{}, commitID: map[plumbing.Hash]int{}, treeID: map[plumbing.Hash]int{}}
 	specs := make([]synth.CommitSpec, len(commits))
 	for i, cm := range commits {
 		r.byID[cm.id] = i
-		sp := synth.CommitSpec{AuthorName: "a", AuthorEmail: "a@x", AuthorWhen: time.Unix(cm.time, 0).UTC()}
+		aw, cw := commitWhen(cm.id, cm.time)
+		sp := synth.CommitSpec{AuthorName: "a", AuthorEmail: "a@x", AuthorWhen: aw, CommitterWhen: cw}
 		for _, p := range cm.parents {
 			if j, ok := r.byID[p]; ok && j < i {
 				sp.Parents = append(sp.Parents, j)
@@ -1221,7 +1303,10 @@ func newPlRunner(commits []plCommit, sizeHours int) *plRunner {
 		}
 		for _, e := range cm.tree {
 			data := blobData(e[1])
-			sp.Files = append(sp.Files, synth.FileSpec{Path: pathName(e[0]), Data: data})
+			sp.Files = append(sp.Files, synth.FileSpec{Path: pathName(e[0]), Data: data, Mode: blobMode(e[1])})
+			if old, dup := r.blobID[plumbing.ComputeHash(plumbing.BlobObject, data)]; dup && old != e[1] {
+				panic("two blob numbers with one content")
+			}
 			r.blobID[plumbing.ComputeHash(plumbing.BlobObject, data)] = e[1]
 		}
 		specs[i] = sp
@@ -1229,6 +1314,11 @@ func newPlRunner(commits []plCommit, sizeHours int) *plRunner {
 	repo, objs := synth.BuildRepo(specs)
 	r.objs = objs
 	for i, o := range objs {
+		// go-git writes a negative time stamp as 0 (Signature.encodeTimeAndTimeZone); real repositories do carry dates before
+		// 1970 and the decoder reads them: the decoded commit object is given the intended times
+		if aw, cw := commitWhen(commits[i].id, commits[i].time); aw.Unix() < 0 || cw.Unix() < 0 {
+			o.Author.When, o.Committer.When = aw, cw
+		}
 		r.commitID[o.Hash] = commits[i].id
 		if _, ok := r.treeID[o.TreeHash]; !ok {
 			r.treeID[o.TreeHash] = commits[i].id
@@ -1239,7 +1329,7 @@ func newPlRunner(commits []plCommit, sizeHours int) *plRunner {
 		td.Configure(map[string]interface{}{})
 		bc.Configure(map[string]interface{}{})
 		tk.Configure(map[string]interface{}{})
-		tk.TickSize = time.Duration(sizeHours) * time.Hour
+		tk.TickSize = time.Duration(sizeSec) * time.Second
 		if td.Initialize(repo) != nil || bc.Initialize(repo) != nil || tk.Initialize(repo) != nil {
 			panic("initialize")
 		}
@@ -1263,7 +1353,7 @@ func (r *plRunner) consumeOn(td *c08.TreeDiff, bc *c08.BlobCache, tk *c08.TicksS
 		}
 		changes := out[c08.DependencyTreeChanges].(object.Changes)
 		type chg struct {
-			kind         string
+			kind          string
 			pid, from, to int
 		}
 		var cl []chg
@@ -1416,7 +1506,7 @@ func (r *plRunner) exec1(o plOp) {
 	r.observe(res, twin)
 }
 
-func emitPl(c *Config, kind string, size int, commits []plCommit, ops []plOp, r *plRunner) {
+func emitPl(c *Config, kind string, size, ssize int, commits []plCommit, ops []plOp, r *plRunner) {
 	var cs, os_ []Sx
 	for _, cm := range commits {
 		cs = append(cs, cm.sx())
@@ -1430,25 +1520,33 @@ func emitPl(c *Config, kind string, size int, commits []plCommit, ops []plOp, r 
 			after++
 		}
 	}
-	c.Emit(T("kind", A(kind)), T("nt", B(forks > 0 && after > 1)), T("size", I(size)), T("commits", cs...), T("ops", os_...), T("obs", r.obs...))
+	fields := []Sx{T("kind", A(kind)), T("nt", B(forks > 0 && after > 1)), T("size", I(size))}
+	if ssize > 0 {
+		fields = append(fields, T("ssize", I(ssize))) // the tick size in seconds; overrides size (hours)
+	}
+	c.Emit(append(fields, T("commits", cs...), T("ops", os_...), T("obs", r.obs...))...)
 	stopIfHung(c)
 }
 
-func runPl(c *Config, kind string, size int, commits []plCommit, ops []plOp) {
-	r := newPlRunner(commits, size)
+func runPl(c *Config, kind string, size, ssize int, commits []plCommit, ops []plOp) {
+	sec := size * 3600
+	if ssize > 0 {
+		sec = ssize
+	}
+	r := newPlRunner(commits, sec)
 	for _, o := range ops {
 		r.exec(o)
 	}
-	emitPl(c, kind, size, commits, ops, r)
+	emitPl(c, kind, size, ssize, commits, ops, r)
 }
 
-func mutateTree(rng *rand.Rand, tree [][2]int, nextBlob *int) [][2]int {
+func mutateTree(rng *rand.Rand, tree [][2]int, nextBlob *int, pidOf func() int) [][2]int {
 	m := map[int]int{}
 	for _, e := range tree {
 		m[e[0]] = e[1]
 	}
 	for k := 1 + rng.Intn(3); k > 0; k-- {
-		pid := 1 + rng.Intn(9)
+		pid := pidOf()
 		switch r := rng.Intn(100); {
 		case r < 30:
 			delete(m, pid)
@@ -1467,9 +1565,109 @@ func mutateTree(rng *rand.Rand, tree [][2]int, nextBlob *int) [][2]int {
 	return res
 }
 
-func randomPl(c *Config) {
+// plTimes is the time regime of a case (R4-3).  next(prev, forked) is the committer time of a new commit on a copy whose last
+// commit had time prev.
+type plTimes struct {
+	name string
+	base int64
+	next func(rng *rand.Rand, prev int64, tick int64, forked bool) int64
+}
+
+const (
+	sane1990   = int64(631152000)  // the "suspicious timestamp" constant of TicksSinceStart.Consume
+	y2038      = int64(2147483647) // 2^31-1
+	y2106      = int64(4294967295) // 2^32-1
+	y2040      = int64(2208988800)
+	y2020      = int64(1583366400) // 2020-03-05
+	wallFuture = int64(1830000000) // end of 2027: after the wall clock of every run so far (a constant: the streams are reproducible)
+)
+
+func plRegimes(rng *rand.Rand) plTimes {
+	step := func(rng *rand.Rand, prev, tick int64, _ bool) int64 {
+		dt := rng.Int63n(3 * tick)
+		if rng.Intn(100) < 15 {
+			dt = -rng.Int63n(2 * tick)
+		}
+		return prev + dt
+	}
+	around := func(c int64) int64 { return c + []int64{-86401, -86400, -2, -1, 0, 1, 2, 86399, 86400}[rng.Intn(9)] }
+	switch rng.Intn(9) {
+	case 0:
+		// zero-time (or otherwise bogus, before 1990) commits up to and beyond the first fork, then every copy jumps to its own sane date
+		bogus := []int64{0, 0, 0, 1, -1, 86400, sane1990 - 1, -86400 * 365}[rng.Intn(8)]
+		target := []int64{y2020, plBase, sane1990, sane1990 + 1, y2040}[rng.Intn(5)]
+		return plTimes{"zero", bogus, func(rng *rand.Rand, prev, tick int64, forked bool) int64 {
+			if prev < sane1990 {
+				if !forked || rng.Intn(100) < 35 {
+					return prev + []int64{0, 0, 1, tick, -1}[rng.Intn(5)]
+				}
+				return target + rng.Int63n(20*tick)
+			}
+			return step(rng, prev, tick, forked)
+		}}
+	case 1:
+		return plTimes{"pre1970", -86400*365*4 + rng.Int63n(86400*3), step}
+	case 2:
+		return plTimes{"epoch", around(0) - rng.Int63n(3)*86400, step}
+	case 3:
+		return plTimes{"1990", around(sane1990), step}
+	case 4:
+		return plTimes{"2038", around(y2038), step}
+	case 5:
+		return plTimes{"2106", around(y2106), step}
+	case 6:
+		return plTimes{"future", wallFuture + []int64{-1, 0, 1, 86400 * 365, 86400 * 3650}[rng.Intn(5)], step}
+	case 7:
+		// equal times, and steps of +-1 s around the tick boundaries
+		return plTimes{"equal", plBase + rng.Int63n(86400*3), func(rng *rand.Rand, prev, tick int64, _ bool) int64 {
+			return prev + []int64{0, 0, 0, 1, -1, tick, tick - 1, tick + 1, -tick}[rng.Intn(9)]
+		}}
+	}
+	// decreasing along the history
+	return plTimes{"decr", y2020, func(rng *rand.Rand, prev, tick int64, _ bool) int64 {
+		if rng.Intn(100) < 80 {
+			return prev - rng.Int63n(3*tick)
+		}
+		return prev + rng.Int63n(2*tick)
+	}}
+}
+
+func randomPl(c *Config) { randomPlKind(c, "pl") }
+
+// randomPlKind: "pl" = the stream as it was; "plt" = a time regime out of plRegimes x tick sizes other than 1 h / 24 h / 7 d
+// (in seconds: 1, 60, 5400, 3601, 86399, 86401, 30 days); "pln" = the files are drawn from the names of nastyPaths.
+func randomPlKind(c *Config, kind string) {
 	rng := c.Rng
 	size := []int{24, 24, 1, 168}[rng.Intn(4)]
+	ssize := 0
+	var reg *plTimes
+	pidOf := func() int { return 1 + rng.Intn(9) }
+	if kind == "plt" {
+		x := plRegimes(rng)
+		reg = &x
+		kind = "plt-" + x.name
+		switch rng.Intn(3) {
+		case 0:
+			size = []int{5, 25, 720, 7}[rng.Intn(4)]
+		case 1:
+			ssize = []int{1, 60, 5400, 3601, 86399, 86401, 30 * 86400, 1000}[rng.Intn(8)]
+		}
+	}
+	if kind == "pln" {
+		pool := []int{1, 2, 3}
+		for k := 4 + rng.Intn(5); k > 0; k-- {
+			pool = append(pool, 10+rng.Intn(31))
+		}
+		pidOf = func() int { return pool[rng.Intn(len(pool))] }
+		if rng.Intn(2) == 0 {
+			x := plRegimes(rng)
+			reg = &x
+		}
+	}
+	tickSec := int64(size) * 3600
+	if ssize > 0 {
+		tickSec = int64(ssize)
+	}
 	var commits []plCommit
 	var ops []plOp
 	nextBlob := 0
@@ -1479,6 +1677,10 @@ func randomPl(c *Config) {
 		t     int64
 	}
 	copies := []cp{{t: plBase + int64(rng.Intn(86400*3))}}
+	if reg != nil {
+		copies[0].t = reg.base
+	}
+	first := true
 	newCommit := func(i int) int {
 		var tree [][2]int
 		var parents []int
@@ -1497,10 +1699,17 @@ func randomPl(c *Config) {
 			dt = -int64(rng.Intn(2 * 3600 * size)) // time going backwards: the tick is clamped
 		}
 		t := copies[i].t + dt
+		if reg != nil {
+			t = copies[i].t
+			if !first {
+				t = reg.next(rng, copies[i].t, tickSec, len(copies) > 1)
+			}
+		}
+		first = false
 		id := len(commits) + 1
 		tr := tree
 		if rng.Intn(100) < 90 {
-			tr = mutateTree(rng, tree, &nextBlob)
+			tr = mutateTree(rng, tree, &nextBlob, pidOf)
 		}
 		commits = append(commits, plCommit{id: id, parents: parents, time: t, tree: tr})
 		return id
@@ -1555,7 +1764,7 @@ func randomPl(c *Config) {
 			}
 		}
 	}
-	runPl(c, "pl", size, commits, ops)
+	runPl(c, kind, size, ssize, commits, ops)
 }
 
 func replayPl(c *Config, cs Sx) {
@@ -1574,7 +1783,11 @@ func replayPl(c *Config, cs Sx) {
 	for _, o := range f.Args() {
 		ops = append(ops, parsePlOp(o))
 	}
-	runPl(c, kind, sf.Args()[0].Int(), commits, ops)
+	ssize := 0
+	if f, ok := cs.Field("ssize"); ok {
+		ssize = f.Args()[0].Int()
+	}
+	runPl(c, kind, sf.Args()[0].Int(), ssize, commits, ops)
 }
 
 // =====================================================================================================
@@ -1694,5 +1907,12 @@ func main() {
 	}
 	for i := c.Count(1500, 20000); i > 0; i-- {
 		randomPl(c)
+	}
+	// round 4: time regimes x tick sizes, names
+	for i := c.Count(900, 12000); i > 0; i-- {
+		randomPlKind(c, "plt")
+	}
+	for i := c.Count(400, 6000); i > 0; i-- {
+		randomPlKind(c, "pln")
 	}
 }
